@@ -1,6 +1,7 @@
 mod c01;
 mod c02;
 mod c03;
+mod bcj2;
 mod c06;
 mod c11;
 mod codec;
@@ -32,6 +33,27 @@ fn main() {
     let outdir = &args[4];
     install_quiet_panic_hook();
     let mut rng = Rng::new(seed ^ fnv(prop.as_bytes()));
+    if prop == "memprobe2" {
+        use std::io::Write;
+        let data = gen_data(&mut rng, "mixed", 300_000);
+        for dict in [4096u32, 65536, 1 << 20] {
+            let o = codec::LzOpts { dict, lc: 3, lp: 0, pb: 2, normal: false, nice: 32, bt4: false, depth: 0, preset: None };
+            for chunk in [None, Some((dict as u64).max(65536))] {
+                let (c, peak) = mem::measure(|| {
+                    let mut opts = lzma_rust2::LZMA2Options { lzma_options: o.to_opts(), chunk_size: None };
+                    opts.set_chunk_size(chunk.and_then(std::num::NonZeroU64::new));
+                    let mut w = lzma_rust2::LZMA2Writer::new(Vec::new(), opts);
+                    for piece in data.chunks(40_000) {
+                        w.write_all(piece).unwrap();
+                    }
+                    w.finish().unwrap()
+                });
+                let units = crate::part::lzma2_unit_sizes(&c);
+                println!("dict={dict} chunk={chunk:?} est={} peak={} out_cap={} units={}", o.to_opts().get_memory_usage() as u64 * 1024, peak, c.capacity(), units.map(|u| u.len()).unwrap_or(0));
+            }
+        }
+        return;
+    }
     if prop == "memprobe" {
         for (dict, normal, bt4, lc, lp, nice) in [(4096u32, false, false, 3u32, 0u32, 64u32), (1 << 20, true, true, 3, 0, 64), (100_000, true, false, 0, 4, 273), (65536, false, true, 2, 2, 8)] {
             let o = codec::LzOpts { dict, lc, lp, pb: 2, normal, nice, bt4, depth: 0, preset: None };
